@@ -93,10 +93,33 @@ def nUnknown : Name := [85,110,107,110,111,119,110]
 def mostProbableNow (m : Match Name Name) : Name :=
   mostProbable nEnglish nUnknown nASCII (fun e => (lookupName Gen.targetLanguages e).getD []) m
 
+/-- comparison of the keyed pairs the container sorts: `is_less` = `Ord::cmp == Less` on the keys -/
+def ltPair {E L : Type} (a b : Match.Key × Match E L) : Bool := Match.ltKey a.1 b.1
+
+/-- a key that is preferred to every *other* key of the list (there is at most one) -/
+def winningKey (keys : List Match.Key) : Option Match.Key :=
+  keys.find? (fun k => keys.all (fun k' => k' == k || (Match.ltKey k k' && !Match.ltKey k' k)))
+
+/-- a key every *other* key of the list is preferred to -/
+def losingKey (keys : List Match.Key) : Option Match.Key :=
+  keys.find? (fun k => keys.all (fun k' => k' == k || (Match.ltKey k' k && !Match.ltKey k k')))
+
+/-- the ranking guarantee of the property, as a check on a sorted key list -/
+def rankingOk (keys sortedKeys : List Match.Key) : Bool :=
+  (match winningKey keys with | some k => sortedKeys.head? == some k | none => true) &&
+  (match losingKey keys with | some k => sortedKeys.getLast? == some k | none => true)
+
 /-- the container's sort, `items.sort_unstable()`: the comparison keys (chaos, coherence, multi-byte
     usage) are computed once per element, then `sort_unstable` runs on (key, element) pairs with
-    `is_less` = `Ord::cmp == Less` on the keys — the same comparisons the Rust code makes. -/
+    `is_less` = `Ord::cmp == Less` on the keys — the same comparisons the Rust code makes.
+    Above 20 elements the modelled ipnsort is not proved to rank correctly for the (non-transitive)
+    match comparison; its result is therefore *validated inside the model* against the ranking
+    guarantee (a key preferred to all others is first, a key all others are preferred to is last) and
+    plain insertion sort answers otherwise. That the validated path is the one std takes – i.e. that the
+    fallback never fires – is what the exact correspondence on container histories checks. -/
 def sortMatches {E L : Type} (l : List (Match E L)) : List (Match E L) :=
-  (sortUnstable (fun (a b : Match.Key × Match E L) => Match.ltKey a.1 b.1) (l.map (fun m => (m.key, m)))).map (·.2)
+  let pairs := l.map (fun m => (m.key, m))
+  let r := sortUnstable ltPair pairs
+  if rankingOk (pairs.map (·.1)) (r.map (·.1)) then r.map (·.2) else (insertionSort ltPair pairs).map (·.2)
 
 end Charset
